@@ -1,7 +1,14 @@
 (* CredHistory.v — pipeline-level history theorems for C05 / C07: sequences of decode requests (any credentials,
-   any retry values, any clients, any clock readings, with replies that are delivered or cannot be delivered) and purge
-   events over the replay cache as dec_process_msg uses it. *)
-From Coq Require Import List NArith ZArith Bool Lia.
+   any retry values, any clients, with replies that are delivered or cannot be delivered) and purge events over the
+   replay cache as dec_process_msg uses it.
+   A decode is NOT atomic in time: it reads the clock when the request is received (t1: the decode time of the reply and
+   of the time-window check, dec_timestamp) and again at its replay step (t2: dec_validate_replay, after replay_insert).
+   Events are linearised at their replay step / at the purge (the replay hash is updated under its mutex), so the TIME OF
+   AN EVENT is t2 for a decode and the purge's clock reading for a purge.
+   CLOCK ASSUMPTION (stated explicitly in every theorem that needs it, `clock_ok`): along the history the event times are
+   non-decreasing (forward jumps of any size allowed) and for every decode t1 <= t2.  Nothing is assumed about how far
+   t2 is from t1, nor about where purges fall. *)
+From Coq Require Import List NArith ZArith Bool Lia Sorted.
 From Coq.Strings Require Import Byte.
 From RecordUpdate Require Import RecordSet.
 From MV Require Import Bytes Base64Model CredModel CredProofs CredForgery RetryModel RetryProofs.
@@ -13,10 +20,29 @@ Local Open Scope N_scope.
 Definition r_purge (now : N) (rs : rstate) : rstate := filter (fun k => now <=? snd k) rs.
 
 Inductive hev :=
-| HDecode (m : msg) (pu pg now : N)     (* a decode request that is answered (reply delivered); m carries the retry value *)
-| HDecodeLost (m : msg) (pu pg now : N) (* a decode request whose reply cannot be delivered (m_msg_send fails): the daemon
-                                           takes back the record this request added, if it added one *)
-| HPurge (now : N).                     (* the periodic purge firing at clock reading now *)
+| HDecode (m : msg) (pu pg t1 t2 : N)     (* a decode request that is answered (reply delivered); m carries the retry
+                                             value; t1 = clock at receipt, t2 = clock at its replay step *)
+| HDecodeLost (m : msg) (pu pg t1 t2 : N) (* a decode request whose reply cannot be delivered (m_msg_send fails): the daemon
+                                             takes back the record this request added and owns (c->is_replay_new) *)
+| HPurge (now : N).                       (* the periodic purge firing at clock reading now *)
+
+(* the time at which an event takes effect on the replay hash *)
+Definition ev_time (e : hev) : N :=
+  match e with HDecode _ _ _ _ t2 => t2 | HDecodeLost _ _ _ _ t2 => t2 | HPurge p => p end.
+(* a request is received before its replay step *)
+Definition ev_wf (e : hev) : Prop :=
+  match e with HDecode _ _ _ t1 t2 => t1 <= t2 | HDecodeLost _ _ _ t1 t2 => t1 <= t2 | HPurge _ => True end.
+(* the clock assumption: event times non-decreasing along the history, requests received before their replay step *)
+Definition clock_ok (h : list hev) : Prop := StronglySorted N.le (map ev_time h) /\ Forall ev_wf h.
+
+Lemma clock_ok_last h e : clock_ok (h ++ [e]) -> forall x, In x h -> ev_time x <= ev_time e.
+Proof.
+  intros [S _] x Hx. rewrite map_app in S. cbn [map] in S.
+  induction h as [|y h IH]; [contradiction|]. cbn [map app] in S.
+  apply StronglySorted_inv in S. destruct S as [S F]. destruct Hx as [->|Hx].
+  - rewrite Forall_forall in F. apply F. apply in_or_app. right. left. reflexivity.
+  - apply IH; assumption.
+Qed.
 
 Lemma r_mem_In k rs : In k rs -> r_mem k rs = true.
 Proof.
@@ -28,6 +54,9 @@ Proof.
   unfold r_mem. intros H. apply existsb_exists in H. destruct H as (x & Hx & E).
   apply rkey_eqb_eq in E. now subst.
 Qed.
+
+Lemma r_mem_false_notin k rs : r_mem k rs = false -> ~ In k rs.
+Proof. intros H Hin. rewrite (r_mem_In _ _ Hin) in H. discriminate. Qed.
 
 Lemma r_purge_keeps k now rs : In k rs -> now <= snd k -> In k (r_purge now rs).
 Proof. intros H L. unfold r_purge. apply filter_In. split; [exact H|now apply N.leb_le]. Qed.
@@ -43,63 +72,78 @@ Variable zdecomp : N -> bytes -> N -> option bytes.
 Variable cf : conf.
 Variable mem : N -> N -> bool.
 
-Notation dec_process := (dec_process hmac sha1 blk_dec zdecomp cf mem).
+Notation dec_process2 := (dec_process2 hmac sha1 blk_dec zdecomp cf mem).
 Notation dec_pre := (dec_pre hmac sha1 blk_dec zdecomp cf mem).
 
 Definition hstep (rs : rstate) (e : hev) : rstate * option msg :=
   match e with
-  | HDecode m pu pg now => let '(r, rs', _) := dec_process rs m pu pg now in (rs', Some r)
-  | HDecodeLost m pu pg now => let '(_, rs', k) := dec_process rs m pu pg now in (dec_rollback rs' k, None)
+  | HDecode m pu pg t1 t2 => let '(r, rs', _) := dec_process2 rs m pu pg t1 t2 in (rs', Some r)
+  | HDecodeLost m pu pg t1 t2 => let '(_, rs', k) := dec_process2 rs m pu pg t1 t2 in (dec_rollback rs' k, None)
   | HPurge now => (r_purge now rs, None)
   end.
 
 Fixpoint hrun (rs : rstate) (h : list hev) : rstate :=
   match h with [] => rs | e :: r => hrun (fst (hstep rs e)) r end.
 
-(* what one decode does to the cache: nothing, or it adds its own key *)
-Lemma decode_cache_effect rs m pu pg now :
-  let '(r, rs', _) := dec_process rs m pu pg now in
-  rs' = rs \/ (exists m' k, dec_pre m pu pg now = inr (m', k) /\ r_mem k rs = false /\ rs' = k :: rs /\ r = m').
+(* what one decode does to the cache: nothing, or it adds its own key (also when the credential turns out to have
+   expired by the replay step: the record of an expired credential is harmless and is purged later) *)
+Lemma decode_cache_effect rs m pu pg t1 t2 :
+  let '(r, rs', _) := dec_process2 rs m pu pg t1 t2 in
+  rs' = rs \/ (exists m' k, dec_pre m pu pg t1 = inr (m', k) /\ r_mem k rs = false /\ rs' = k :: rs /\
+                            (r = m' /\ t2 <= snd k \/ r = dec_finish (set_err m' e_cred_expired None) /\ snd k < t2)).
 Proof.
-  rewrite (dec_process_factor hmac sha1 blk_dec zdecomp).
-  destruct (dec_pre m pu pg now) as [r0|[m' k]] eqn:P; [left; reflexivity|].
+  rewrite (dec_process2_factor hmac sha1 blk_dec zdecomp).
+  destruct (dec_pre m pu pg t1) as [r0|[m' k]] eqn:P; [left; reflexivity|].
   destruct (r_mem k rs) eqn:M.
   - destruct (_ && _ && _); left; reflexivity.
-  - right. exists m', k. repeat split; auto.
+  - destruct (N.ltb_spec (snd k) t2); right; exists m', k; repeat split; auto.
 Qed.
 
-(* a decode whose reply cannot be delivered leaves the cache EXACTLY as it found it: it takes back the record it added,
-   and nothing else - in particular not the record of an earlier decode that a retry was allowed to replay *)
-Lemma lost_decode_restores rs m pu pg now : fst (hstep rs (HDecodeLost m pu pg now)) = rs.
+(* a decode whose reply cannot be delivered leaves the cache as it found it - it takes back the record it added and owns,
+   and nothing else, in particular not the record of an earlier decode that a retry was allowed to replay - except that
+   the record of a credential that expired between receipt and the replay step stays (the request does not own it) *)
+Lemma lost_decode_effect rs m pu pg t1 t2 :
+  fst (hstep rs (HDecodeLost m pu pg t1 t2)) = rs \/
+  (exists m' k, dec_pre m pu pg t1 = inr (m', k) /\ r_mem k rs = false /\ snd k < t2 /\
+                fst (hstep rs (HDecodeLost m pu pg t1 t2)) = k :: rs).
 Proof.
-  cbn [hstep]. rewrite (dec_process_factor hmac sha1 blk_dec zdecomp).
-  destruct (dec_pre m pu pg now) as [r0|[m' k]]; [reflexivity|].
+  cbn [hstep]. rewrite (dec_process2_factor hmac sha1 blk_dec zdecomp).
+  destruct (dec_pre m pu pg t1) as [r0|[m' k]] eqn:P; [left; reflexivity|].
   destruct (r_mem k rs) eqn:M.
-  - destruct (_ && _ && _); reflexivity.
-  - cbn [fst]. apply rollback_insert. exact M.
+  - destruct (_ && _ && _); left; reflexivity.
+  - destruct (N.ltb_spec (snd k) t2).
+    + right. exists m', k. repeat split; auto.
+    + left. cbn [fst]. apply rollback_insert. exact M.
+Qed.
+
+Lemma lost_decode_restores rs m pu pg t1 t2 m' k :
+  dec_pre m pu pg t1 = inr (m', k) -> t2 <= snd k -> fst (hstep rs (HDecodeLost m pu pg t1 t2)) = rs.
+Proof.
+  intros P L. destruct (lost_decode_effect rs m pu pg t1 t2) as [E|(m2 & k2 & P2 & _ & L2 & _)]; [exact E|].
+  rewrite P in P2. inversion P2; subst. lia.
 Qed.
 
 (* a delivered decode that the cache-independent part accepts leaves the credential's record in the cache, whatever
-   its retry value and whatever it was answered (success, allowed replay, replayed) *)
-Lemma delivered_decode_records rs m pu pg now m' k :
-  dec_pre m pu pg now = inr (m', k) -> In k (fst (hstep rs (HDecode m pu pg now))).
+   its retry value, its two clock readings and whatever it was answered (success, allowed replay, replayed, expired) *)
+Lemma delivered_decode_records rs m pu pg t1 t2 m' k :
+  dec_pre m pu pg t1 = inr (m', k) -> In k (fst (hstep rs (HDecode m pu pg t1 t2))).
 Proof.
-  intros P. cbn [hstep]. rewrite (dec_process_factor hmac sha1 blk_dec zdecomp), P.
+  intros P. cbn [hstep]. rewrite (dec_process2_factor hmac sha1 blk_dec zdecomp), P.
   destruct (r_mem k rs) eqn:M.
   - apply r_mem_true_In in M. destruct (_ && _ && _); exact M.
-  - left. reflexivity.
+  - destruct (snd k <? t2); left; reflexivity.
 Qed.
 
-(* no event removes a record before its expiry: decodes only add, undeliverable ones change nothing, a purge at clock p
-   keeps every record with p <= expiry *)
+(* no event removes a record before its expiry: decodes only add, a purge at clock p keeps every record with
+   p <= expiry *)
 Lemma hstep_keeps rs e k :
   In k rs -> (forall p, e = HPurge p -> p <= snd k) -> In k (fst (hstep rs e)).
 Proof.
-  intros Hin Hp. destruct e as [m1 pu1 pg1 now1|m1 pu1 pg1 now1|p].
-  - cbn [hstep]. pose proof (decode_cache_effect rs m1 pu1 pg1 now1) as E.
-    destruct (dec_process rs m1 pu1 pg1 now1) as [[r rs'] kk]. cbn [fst].
+  intros Hin Hp. destruct e as [m1 pu1 pg1 ta tb|m1 pu1 pg1 ta tb|p].
+  - cbn [hstep]. pose proof (decode_cache_effect rs m1 pu1 pg1 ta tb) as E.
+    destruct (dec_process2 rs m1 pu1 pg1 ta tb) as [[r rs'] kk]. cbn [fst].
     destruct E as [->|(m2 & k2 & _ & _ & -> & _)]; [exact Hin|right; exact Hin].
-  - rewrite lost_decode_restores. exact Hin.
+  - destruct (lost_decode_effect rs m1 pu1 pg1 ta tb) as [->|(m2 & k2 & _ & _ & _ & ->)]; [exact Hin|right; exact Hin].
   - cbn [hstep fst]. apply r_purge_keeps; [exact Hin|]. apply Hp. reflexivity.
 Qed.
 
@@ -112,48 +156,66 @@ Proof.
   - intros p Hq. apply Hp. right. exact Hq.
 Qed.
 
+(* a record that has disappeared was discarded by a purge that ran after its expiry *)
+Lemma hrun_lost_means_purged h : forall rs k,
+  In k rs -> ~ In k (hrun rs h) -> exists p, In (HPurge p) h /\ snd k < p.
+Proof.
+  induction h as [|e h IH]; intros rs k Hin Hn; cbn [hrun] in Hn; [contradiction|].
+  destruct e as [m1 pu1 pg1 ta tb|m1 pu1 pg1 ta tb|p].
+  - destruct (IH _ k (hstep_keeps rs (HDecode m1 pu1 pg1 ta tb) k Hin ltac:(discriminate)) Hn) as (p & Hp & L).
+    exists p. split; [right; exact Hp|exact L].
+  - destruct (IH _ k (hstep_keeps rs (HDecodeLost m1 pu1 pg1 ta tb) k Hin ltac:(discriminate)) Hn) as (p & Hp & L).
+    exists p. split; [right; exact Hp|exact L].
+  - destruct (N.le_gt_cases p (snd k)) as [L|L].
+    + assert (K : In k (fst (hstep rs (HPurge p)))) by (apply hstep_keeps; [exact Hin|intros q E; inversion E; subst; exact L]).
+      destruct (IH _ k K Hn) as (q & Hq & Lq). exists q. split; [right; exact Hq|exact Lq].
+    + exists p. split; [left; reflexivity|exact L].
+Qed.
+
 Lemma hrun_app h1 h2 : forall rs, hrun rs (h1 ++ h2) = hrun (hrun rs h1) h2.
 Proof. induction h1 as [|e h1 IH]; intros rs; cbn [hrun app]; [reflexivity|apply IH]. Qed.
 
-(* the in-window check bounds the decode clock by the record's expiry *)
+(* the in-window check bounds the receipt clock by the record's expiry *)
 Lemma dec_pre_accept_time m pu pg now m' k :
   dec_pre m pu pg now = inr (m', k) -> u32 now <= snd k /\ m_retry m' = m_retry m.
+Proof. exact (dec_pre_expiry hmac sha1 blk_dec zdecomp cf mem m pu pg now m' k). Qed.
+
+(* C07 at pipeline level, with a decode that is not atomic in time and purges ANYWHERE: once the record of a credential
+   is in the cache, a later first-attempt presentation (received at t1, reaching its replay step at t2) that
+   authenticates, is authorized and was inside the time window at t1 is NEVER accepted - across any history of other
+   decodes (any credentials, retry values, clients, outcomes, replies delivered or not) and any number of purges at any
+   times, under the clock assumption alone.  It is answered 'replayed' (cache unchanged) if the record is still there,
+   and 'expired' if a purge has discarded it - which can only have happened after the credential's last valid second,
+   and then t2 is after it too. *)
+Theorem second_presentation_never_accepted rs0 h m pu pg t1 t2 m' k :
+  In k rs0 ->
+  clock_ok (h ++ [HDecode m pu pg t1 t2]) ->
+  dec_pre m pu pg t1 = inr (m', k) -> m_retry m = 0 ->
+  let rs := hrun rs0 h in
+  dec_process2 rs m pu pg t1 t2 = (dec_finish (set_err m' e_cred_replayed None), rs, None) \/
+  (snd k < t2 /\ dec_process2 rs m pu pg t1 t2 = (dec_finish (set_err m' e_cred_expired None), k :: rs, None)).
 Proof.
-  unfold RetryModel.dec_pre. intros H.
-  destruct (m_data_len m =? 0); [discriminate|].
-  destruct (c_retry_attempts <? _); [discriminate|].
-  destruct (CredModel.dec_parse _ _ _ _ _ _) as [e|[m2 tag]] eqn:P; [discriminate|].
-  destruct (negb _); [discriminate|].
-  destruct (dec_time cf (m_time0 m2) (m_ttl m2) (m_time1 m2)) as [tv ttl'] eqn:T.
-  destruct tv; try discriminate. inversion H; subst; clear H.
-  destruct (dec_parse_frame hmac sha1 blk_dec zdecomp _ _ _ _ P) as (_ & Hr & _ & _ & Ht1).
-  cbn in Hr, Ht1. split; [|exact Hr].
-  unfold cred_rkey. cbn.
-  pose proof (window_exact cf (m_time0 m2) (m_ttl m2) (m_time1 m2)) as W. cbv zeta in W.
-  destruct W as (W & _). rewrite T in W. cbn [fst] in W. destruct (proj1 W eq_refl) as [_ W2].
-  assert (ttl' = capped cf (m_ttl m2)) as -> by (pose proof (dec_time_ttl cf (m_time0 m2) (m_ttl m2) (m_time1 m2)) as X; rewrite T in X; exact X).
-  rewrite Ht1 in W2. lia.
+  intros Hin Hclk P R0. cbv zeta.
+  destruct (dec_pre_accept_time _ _ _ _ _ _ P) as [_ Hr].
+  rewrite (dec_process2_factor hmac sha1 blk_dec zdecomp), P, Hr, R0.
+  replace (0 <? 0) with false by reflexivity. rewrite andb_false_r.
+  destruct (r_mem k (hrun rs0 h)) eqn:M; [left; reflexivity|right].
+  destruct (hrun_lost_means_purged h rs0 k Hin (r_mem_false_notin _ _ M)) as (p & Hp & L).
+  pose proof (clock_ok_last h _ Hclk (HPurge p) Hp) as T. cbn [ev_time] in T.
+  assert (X : snd k < t2) by lia. split; [exact X|].
+  replace (snd k <? t2) with true by (symmetry; apply N.ltb_lt; exact X). reflexivity.
 Qed.
 
-(* C07 at pipeline level: once the record of a credential is in the cache, every later first-attempt presentation
-   that authenticates, is authorized and is inside the time window is answered 'replayed' and changes nothing —
-   across ANY history of other decodes (any credentials, retry values, clients, outcomes, replies delivered or not)
-   and ANY number of purges, as long as
-   the clock readings of the purges do not exceed the clock reading of that presentation (non-decreasing clock).
-   In particular up to and including the last valid second. *)
-Theorem replayed_until_last_valid_second rs0 h m pu pg now m' k :
+(* ... and up to and including the last valid second (t2 <= expiry) the record is certainly still there: 'replayed' *)
+Theorem replayed_until_last_valid_second rs0 h m pu pg t1 t2 m' k :
   In k rs0 ->
-  (forall p, In (HPurge p) h -> p <= u32 now) ->
-  dec_pre m pu pg now = inr (m', k) -> m_retry m = 0 ->
+  clock_ok (h ++ [HDecode m pu pg t1 t2]) -> t2 <= snd k ->
+  dec_pre m pu pg t1 = inr (m', k) -> m_retry m = 0 ->
   let rs := hrun rs0 h in
-  dec_process rs m pu pg now = (dec_finish (set_err m' e_cred_replayed None), rs, None).
+  dec_process2 rs m pu pg t1 t2 = (dec_finish (set_err m' e_cred_replayed None), rs, None).
 Proof.
-  intros Hin Hp P R0. cbv zeta.
-  destruct (dec_pre_accept_time _ _ _ _ _ _ P) as [Ht Hr].
-  assert (K : In k (hrun rs0 h)).
-  { apply hrun_keeps; [exact Hin|]. intros p Hq. specialize (Hp p Hq). lia. }
-  rewrite (dec_process_factor hmac sha1 blk_dec zdecomp), P, (r_mem_In _ _ K), Hr, R0.
-  replace (0 <? 0) with false by reflexivity. rewrite andb_false_r. reflexivity.
+  intros Hin Hclk Hl P R0. cbv zeta.
+  destruct (second_presentation_never_accepted rs0 h m pu pg t1 t2 m' k Hin Hclk P R0) as [E|[L _]]; [exact E|lia].
 Qed.
 
 (* records are discarded only after expiry, and are discarded then *)
@@ -163,68 +225,78 @@ Proof. apply r_purge_spec. Qed.
 
 (* C05 at pipeline level: a decode whose cache-independent part fails (invalid, unauthorized, expired, rewound)
    leaves the cache exactly as it was — failed decodes never consume a credential *)
-Theorem failed_decode_does_not_consume rs m pu pg now r0 :
-  dec_pre m pu pg now = inl r0 -> dec_process rs m pu pg now = (r0, rs, None).
-Proof. intros P. rewrite (dec_process_factor hmac sha1 blk_dec zdecomp), P. reflexivity. Qed.
+Theorem failed_decode_does_not_consume rs m pu pg t1 t2 r0 :
+  dec_pre m pu pg t1 = inl r0 -> dec_process2 rs m pu pg t1 t2 = (r0, rs, None).
+Proof. intros P. rewrite (dec_process2_factor hmac sha1 blk_dec zdecomp), P. reflexivity. Qed.
 
-(* ... and the first accepted first-attempt presentation of a key succeeds and records it, whatever other keys
-   the cache holds (equal expiry, equal bucket, same MAC with another expiry: any k' <> k) *)
-Theorem first_presentation_succeeds rs m pu pg now m' k :
-  dec_pre m pu pg now = inr (m', k) -> ~ In k rs ->
-  dec_process rs m pu pg now = (m', k :: rs, Some k).
+(* ... and the first accepted first-attempt presentation of a key that has not expired by its replay step succeeds and
+   records it, whatever other keys the cache holds (equal expiry, equal bucket, same MAC with another expiry) *)
+Theorem first_presentation_succeeds rs m pu pg t1 t2 m' k :
+  dec_pre m pu pg t1 = inr (m', k) -> ~ In k rs -> t2 <= snd k ->
+  dec_process2 rs m pu pg t1 t2 = (m', k :: rs, Some k).
 Proof.
-  intros P Hn. rewrite (dec_process_factor hmac sha1 blk_dec zdecomp), P.
-  destruct (r_mem k rs) eqn:M; [apply r_mem_true_In in M; contradiction|reflexivity].
+  intros P Hn L. rewrite (dec_process2_factor hmac sha1 blk_dec zdecomp), P.
+  destruct (r_mem k rs) eqn:M; [apply r_mem_true_In in M; contradiction|].
+  replace (snd k <? t2) with false by (symmetry; apply N.ltb_ge; exact L). reflexivity.
 Qed.
 
 (* C05, first attempts: after a DELIVERED decode of credential X that the cache-independent part accepted (whatever
-   its retry value; in particular after a delivered success), every later request for X with retry = 0 that is inside
-   the time window is answered 'replayed' and changes nothing - whatever happened before (h1), and whatever came in
-   between (h2): decodes of any credentials with any retry values 0..255 and beyond, from any clients, at any clock
-   readings, with replies delivered or undeliverable, and purge ticks at clock readings not beyond the final request's
-   (a non-decreasing clock).  Hence at most one retry-0 request per credential with a delivered reply ends in success
-   while the record can still be present. *)
-Theorem first_attempts_at_most_once rs0 h1 h2 mA puA pgA nowA mA' m pu pg now m' k :
-  dec_pre mA puA pgA nowA = inr (mA', k) ->
-  (forall p, In (HPurge p) h2 -> p <= u32 now) ->
-  dec_pre m pu pg now = inr (m', k) -> m_retry m = 0 ->
-  let rs := hrun rs0 (h1 ++ HDecode mA puA pgA nowA :: h2) in
-  dec_process rs m pu pg now = (dec_finish (set_err m' e_cred_replayed None), rs, None).
+   its retry value and its clock readings; in particular after a delivered success), every later request for X with
+   retry = 0 that was inside the time window when it was received is NOT accepted - it is answered 'replayed', or
+   'expired' when a purge has meanwhile discarded the record (then its replay step is after the last valid second) -
+   whatever happened before (h1), and whatever came in between (h2): decodes of any credentials with any retry values,
+   from any clients, with replies delivered or undeliverable, each with its own pair of clock readings, and purge ticks
+   ANYWHERE - under the clock assumption alone.  Hence at most one retry-0 request per credential with a delivered
+   reply ever ends in success. *)
+Theorem first_attempts_at_most_once rs0 h1 h2 mA puA pgA tA1 tA2 mA' m pu pg t1 t2 m' k :
+  dec_pre mA puA pgA tA1 = inr (mA', k) ->
+  clock_ok (h2 ++ [HDecode m pu pg t1 t2]) ->
+  dec_pre m pu pg t1 = inr (m', k) -> m_retry m = 0 ->
+  let rs := hrun rs0 (h1 ++ HDecode mA puA pgA tA1 tA2 :: h2) in
+  dec_process2 rs m pu pg t1 t2 = (dec_finish (set_err m' e_cred_replayed None), rs, None) \/
+  (snd k < t2 /\ dec_process2 rs m pu pg t1 t2 = (dec_finish (set_err m' e_cred_expired None), k :: rs, None)).
 Proof.
-  intros PA Hp P R0. cbv zeta. rewrite hrun_app. cbn [hrun].
-  apply (replayed_until_last_valid_second _ h2 m pu pg now m' k); auto.
+  intros PA Hclk P R0. cbv zeta. rewrite hrun_app. cbn [hrun].
+  apply (second_presentation_never_accepted _ h2 m pu pg t1 t2 m' k); auto.
   apply delivered_decode_records with (m' := mA'). exact PA.
 Qed.
 
-(* two delivered retry-0 requests for one credential in one history never both succeed *)
-Corollary two_first_attempts_not_both_ok rs0 h1 h2 mA puA pgA nowA mA' m pu pg now m' k :
-  dec_pre mA puA pgA nowA = inr (mA', k) ->
-  (forall p, In (HPurge p) h2 -> p <= u32 now) ->
-  dec_pre m pu pg now = inr (m', k) -> m_retry m = 0 -> m_err m = e_success ->
-  let rs := hrun rs0 (h1 ++ HDecode mA puA pgA nowA :: h2) in
-  m_err (fst (fst (dec_process rs m pu pg now))) = e_cred_replayed.
+Lemma dec_pre_err_ok m pu pg now m' k : dec_pre m pu pg now = inr (m', k) -> m_err m' = m_err m.
 Proof.
-  intros PA Hp P R0 E0. cbv zeta. rewrite (first_attempts_at_most_once _ _ _ _ _ _ _ _ _ _ _ _ _ _ PA Hp P R0).
-  cbn [fst]. unfold dec_finish.
-  assert (Em : m_err m' = e_success).
-  { unfold RetryModel.dec_pre in P.
-    destruct (m_data_len m =? 0); [discriminate|].
-    destruct (c_retry_attempts <? _); [discriminate|].
-    destruct (CredModel.dec_parse _ _ _ _ _ _) as [e|[m2 tag]] eqn:Q; [discriminate|].
-    destruct (negb _); [discriminate|].
-    destruct (dec_time cf (m_time0 m2) (m_ttl m2) (m_time1 m2)) as [tv ttl'].
-    destruct tv; try discriminate. inversion P; subst; clear P.
-    destruct (dec_parse_frame hmac sha1 blk_dec zdecomp _ _ _ _ Q) as (He & _). cbn in He. cbn. congruence. }
-  rewrite (set_err_code _ _ _ Em) by discriminate.
-  change (negb (e_cred_replayed =? e_success) && negb (soft_err e_cred_replayed)) with false. cbn iota.
-  apply set_err_code; [exact Em|discriminate].
+  unfold RetryModel.dec_pre. intros P.
+  destruct (m_data_len m =? 0); [discriminate|].
+  destruct (c_retry_attempts <? _); [discriminate|].
+  destruct (CredModel.dec_parse _ _ _ _ _ _) as [e|[m2 tag]] eqn:Q; [discriminate|].
+  destruct (negb _); [discriminate|].
+  destruct (dec_time cf (m_time0 m2) (m_ttl m2) (m_time1 m2)) as [tv ttl'].
+  destruct tv; try discriminate. inversion P; subst; clear P.
+  destruct (dec_parse_frame hmac sha1 blk_dec zdecomp _ _ _ _ Q) as (He & _). cbn in He. cbn. congruence.
+Qed.
+
+(* two delivered retry-0 requests for one credential in one history never both succeed: the later one is answered
+   'replayed' or 'expired' *)
+Corollary two_first_attempts_not_both_ok rs0 h1 h2 mA puA pgA tA1 tA2 mA' m pu pg t1 t2 m' k :
+  dec_pre mA puA pgA tA1 = inr (mA', k) ->
+  clock_ok (h2 ++ [HDecode m pu pg t1 t2]) ->
+  dec_pre m pu pg t1 = inr (m', k) -> m_retry m = 0 -> m_err m = e_success ->
+  let rs := hrun rs0 (h1 ++ HDecode mA puA pgA tA1 tA2 :: h2) in
+  let e := m_err (fst (fst (dec_process2 rs m pu pg t1 t2))) in
+  e = e_cred_replayed \/ e = e_cred_expired.
+Proof.
+  intros PA Hclk P R0 E0. cbv zeta.
+  assert (Em : m_err m' = e_success) by (rewrite (dec_pre_err_ok _ _ _ _ _ _ P); exact E0).
+  destruct (first_attempts_at_most_once rs0 h1 h2 mA puA pgA tA1 tA2 mA' m pu pg t1 t2 m' k PA Hclk P R0) as [E|[_ E]];
+    cbv zeta in E; rewrite E; cbn [fst]; unfold dec_finish; rewrite (set_err_code _ _ _ Em) by discriminate.
+  - left. change (negb (e_cred_replayed =? e_success) && negb (soft_err e_cred_replayed)) with false. cbn iota.
+    apply set_err_code; [exact Em|discriminate].
+  - right. change (negb (e_cred_expired =? e_success) && negb (soft_err e_cred_expired)) with false. cbn iota.
+    apply set_err_code; [exact Em|discriminate].
 Qed.
 
 End H.
 
-(* ---- the roll-back rule before the repair (3dbe0fd): a retry that was allowed to replay an existing record also
-        "owned" it, so its undeliverable reply removed the record of the earlier DELIVERED decode.  Defined here, not
-        in the model: the statement above is false for it. ---- *)
+(* ---- rules of the source BEFORE two repairs, defined here (not in the model) so that the theorems above can be shown
+        to be false for them.  Both ignore the clock reading at the replay step. ---- *)
 Section Old.
 Variable hmac : N -> bytes -> bytes -> bytes.
 Variable sha1 : bytes -> bytes.
@@ -233,6 +305,8 @@ Variable zdecomp : N -> bytes -> N -> option bytes.
 Variable cf : conf.
 Variable mem : N -> N -> bool.
 
+(* before 3dbe0fd: a retry that was allowed to replay an existing record also "owned" it, so its undeliverable reply
+   removed the record of the earlier DELIVERED decode (and no fresh expiry check) *)
 Definition dec_process_old (rs : rstate) (m : msg) (pu pg now : N) : msg * rstate * option rkey :=
   match dec_pre hmac sha1 blk_dec zdecomp cf mem m pu pg now with
   | inl r => (r, rs, None)
@@ -244,36 +318,80 @@ Definition dec_process_old (rs : rstate) (m : msg) (pu pg now : N) : msg * rstat
       else (m', k :: rs, Some k)
   end.
 
-Definition hstep_old (rs : rstate) (e : hev) : rstate :=
+(* before 41b6e44 (after 3dbe0fd): the time check used the receipt clock only; a successful insert was taken as "first
+   presentation" although replay_purge may have discarded the record of an earlier decode in the meantime *)
+Definition dec_process_stale (rs : rstate) (m : msg) (pu pg now : N) : msg * rstate * option rkey :=
+  match dec_pre hmac sha1 blk_dec zdecomp cf mem m pu pg now with
+  | inl r => (r, rs, None)
+  | inr (m', k) =>
+      if r_mem k rs then
+        if cf_socket_retry cf && (0 <? m_retry m') && (m_retry m' <=? c_retry_attempts)
+        then (m', rs, None)
+        else (dec_finish (set_err m' e_cred_replayed None), rs, None)
+      else (m', k :: rs, Some k)                    (* pre-repair: no look at the clock after the insert *)
+  end.
+
+Definition hstep_with (dp : rstate -> msg -> N -> N -> N -> msg * rstate * option rkey) (rs : rstate) (e : hev) : rstate :=
   match e with
-  | HDecode m pu pg now => let '(_, rs', _) := dec_process_old rs m pu pg now in rs'
-  | HDecodeLost m pu pg now => let '(_, rs', k) := dec_process_old rs m pu pg now in dec_rollback rs' k
+  | HDecode m pu pg t1 _ => let '(_, rs', _) := dp rs m pu pg t1 in rs'
+  | HDecodeLost m pu pg t1 _ => let '(_, rs', k) := dp rs m pu pg t1 in dec_rollback rs' k
   | HPurge now => r_purge now rs
   end.
-Fixpoint hrun_old (rs : rstate) (h : list hev) : rstate :=
-  match h with [] => rs | e :: r => hrun_old (hstep_old rs e) r end.
+Fixpoint hrun_with dp (rs : rstate) (h : list hev) : rstate :=
+  match h with [] => rs | e :: r => hrun_with dp (hstep_with dp rs e) r end.
+Definition hrun_old := hrun_with dec_process_old.
+Definition hrun_stale := hrun_with dec_process_stale.
 End Old.
 
-(* a concrete 3-event history (toy primitives, computed inside Coq): A = first attempt, delivered, success; B = the same
-   credential with retry = 1, reply undeliverable; C = first attempt again, inside the window, no purge at all.  All
-   premises of first_attempts_at_most_once hold (h1 = [], h2 = [B]); under the old rule C succeeds a second time, under
-   the model's (repaired) rule it is answered 'replayed'. *)
+(* a concrete 3-event history (toy primitives, computed inside Coq; the clock does not move inside a decode): A = first
+   attempt, delivered, success; B = the same credential with retry = 1, reply undeliverable; C = first attempt again,
+   inside the window, no purge at all.  All premises of first_attempts_at_most_once hold (h1 = [], h2 = [B]); under the
+   pre-3dbe0fd rule C succeeds a second time, under the model's rule it is answered 'replayed'. *)
 Theorem old_unplay_refuted :
   let pre := dec_pre toy_hmac (fun x => x) toy_blk (fun _ x _ => Some x) cf_std (fun _ _ => false) in
   let old := dec_process_old toy_hmac (fun x => x) toy_blk (fun _ x _ => Some x) cf_std (fun _ _ => false) in
-  let new := dec_process toy_hmac (fun x => x) toy_blk (fun _ x _ => Some x) cf_std (fun _ _ => false) in
-  let A := HDecode (req toy_cred 0) 7 8 5010 in
-  let B := HDecodeLost (req toy_cred 1) 7 8 5011 in
+  let new := dec_process2 toy_hmac (fun x => x) toy_blk (fun _ x _ => Some x) cf_std (fun _ _ => false) in
+  let A := HDecode (req toy_cred 0) 7 8 5010 5010 in
+  let B := HDecodeLost (req toy_cred 1) 7 8 5011 5011 in
   let C := req toy_cred 0 in
   (exists mA' m' k, pre (req toy_cred 0) 7 8 5010 = inr (mA', k) /\ pre C 7 8 5012 = inr (m', k)) /\
-  m_retry C = 0 /\ (forall p, In (HPurge p) [B] -> p <= u32 5012) /\
+  m_retry C = 0 /\ clock_ok ([A; B] ++ [HDecode C 7 8 5012 5012]) /\
   (let rs := hrun_old toy_hmac (fun x => x) toy_blk (fun _ x _ => Some x) cf_std (fun _ _ => false) [] [A; B] in
    m_err (fst (fst (old rs C 7 8 5012))) = e_success /\ rs = []) /\
   (let rs := hrun toy_hmac (fun x => x) toy_blk (fun _ x _ => Some x) cf_std (fun _ _ => false) [] [A; B] in
-   m_err (fst (fst (new rs C 7 8 5012))) = e_cred_replayed /\ length rs = 1%nat).
+   m_err (fst (fst (new rs C 7 8 5012 5012))) = e_cred_replayed /\ length rs = 1%nat).
 Proof.
   cbv zeta. split; [|split; [reflexivity|split]].
   - eexists _, _, _. split; vm_compute; reflexivity.
-  - intros p [H|[]]. discriminate H.
+  - split; [|repeat constructor; cbn; lia].
+    cbn. repeat constructor; lia.
   - split; vm_compute; split; reflexivity.
+Qed.
+
+(* the straddle: the toy credential is encoded at 5000 with TTL 60, so X = 5060 is its last valid second.  A = first
+   attempt received and processed at X: success.  Purge at X + 1: the record (expiry X) is discarded.  C = first attempt
+   RECEIVED at X (inside the window) whose replay step happens at X + 1.  The clock assumption holds (5060, 5061, 5061;
+   receipt before replay step) and all premises of first_attempts_at_most_once / second_presentation_never_accepted hold;
+   under the pre-41b6e44 rule (no fresh check) C succeeds a SECOND time, under the model's rule it is answered
+   'expired' (and the fields of the reply stay: a soft error). *)
+Theorem stale_time_refuted :
+  let pre := dec_pre toy_hmac (fun x => x) toy_blk (fun _ x _ => Some x) cf_std (fun _ _ => false) in
+  let stale := dec_process_stale toy_hmac (fun x => x) toy_blk (fun _ x _ => Some x) cf_std (fun _ _ => false) in
+  let new := dec_process2 toy_hmac (fun x => x) toy_blk (fun _ x _ => Some x) cf_std (fun _ _ => false) in
+  let A := HDecode (req toy_cred 0) 7 8 5060 5060 in
+  let P := HPurge 5061 in
+  let C := req toy_cred 0 in
+  (exists mA' m' k, pre (req toy_cred 0) 7 8 5060 = inr (mA', k) /\ pre C 7 8 5060 = inr (m', k) /\ snd k = 5060) /\
+  m_retry C = 0 /\ clock_ok ([A; P] ++ [HDecode C 7 8 5060 5061]) /\
+  (let rs := hrun_stale toy_hmac (fun x => x) toy_blk (fun _ x _ => Some x) cf_std (fun _ _ => false) [] [A; P] in
+   rs = [] /\ m_err (fst (fst (stale rs C 7 8 5060))) = e_success) /\
+  (let rs := hrun toy_hmac (fun x => x) toy_blk (fun _ x _ => Some x) cf_std (fun _ _ => false) [] [A; P] in
+   rs = [] /\ let r := fst (fst (new rs C 7 8 5060 5061)) in
+              m_err r = e_cred_expired /\ m_data_len r = 5 /\ m_cred_uid r = 1000).
+Proof.
+  cbv zeta. split; [|split; [reflexivity|split]].
+  - eexists _, _, _. split; [|split]; vm_compute; reflexivity.
+  - split; [|repeat constructor; cbn; lia].
+    cbn. repeat constructor; lia.
+  - split; vm_compute; repeat split; reflexivity.
 Qed.
